@@ -99,9 +99,21 @@ Definition pick_n (num : nat) (existing down : list host) (doms : list (list hos
   if Nat.leb (length pool) num then one_from_each pool o else weighted_rand pool num o.
 
 (* ---------- allocateTS ---------- *)
-(* [lvls] is the reverse index with the HIGHEST level first (the Go loop runs i = len-1 downto 0);
-   [perms] supplies one shuffle code list per level (Go map iteration order). *)
-Fixpoint alloc_levels (lvls : list level) (num : nat) (existing down : list host)
+(* domainMembers: one member of the level-L domain of every existing holder, if that domain is in the
+   reverse index (the holders themselves may be absent from it: full or unhealthy servers are not indexed). *)
+Definition domain_members (exchains : list chain) (L : nat) (l : level) : list host :=
+  flat_map (fun c => match nth_error c L with
+                     | Some d => match find (fun e => N.eqb (fst e) d) l with
+                                 | Some (_, h :: _) => [h]
+                                 | _ => []
+                                 end
+                     | None => []
+                     end) exchains.
+
+(* [lvls] is the reverse index with the HIGHEST level first (the Go loop runs i = len-1 downto 0), so the
+   level number of the head is [length ls]; [perms] supplies one shuffle code list per level (Go map
+   iteration order); [exchains] are the failure-domain chains of the existing holders. *)
+Fixpoint alloc_levels (lvls : list level) (num : nat) (exchains : list chain) (existing down : list host)
          (o : oracle) (perms : list (list N)) (acc : list host) : list host * nat :=
   match lvls with
   | [] => (acc, num)
@@ -110,14 +122,15 @@ Fixpoint alloc_levels (lvls : list level) (num : nat) (existing down : list host
       | O => (acc, num)
       | _ =>
           let doms := shuffle (hd [] perms) (map snd l) in
-          let '(chosen, o') := pick_n num existing down doms o in
-          alloc_levels ls (num - length chosen) (existing ++ chosen) down o' (tl perms) (acc ++ chosen)
+          let avoid := domain_members exchains (length ls) l ++ existing in
+          let '(chosen, o') := pick_n num avoid down doms o in
+          alloc_levels ls (num - length chosen) exchains (existing ++ chosen) down o' (tl perms) (acc ++ chosen)
       end
   end.
 
-Definition allocate (idx : list level) (num : nat) (existing down : list host)
+Definition allocate (idx : list level) (num : nat) (exchains : list chain) (existing down : list host)
            (o : oracle) (perms : list (list N)) : option (list host) :=
-  let '(acc, rem) := alloc_levels (rev idx) num existing down o perms [] in
+  let '(acc, rem) := alloc_levels (rev idx) num exchains existing down o perms [] in
   match rem with O => Some acc | _ => None end.
 
 (* The whole path from monitor data to an allocation. [chains h] is the FDS answer for h. *)
@@ -131,7 +144,7 @@ Definition candidates (c : moncfg) (tss : list tsdata) : list host :=
 Definition allocate_from_monitor (c : moncfg) (tss : list tsdata) (topo : list chain)
            (mapperm : list N) (num : nat) (existing down : list host) (o : oracle) (perms : list (list N)) :=
   let cands := shuffle mapperm (candidates c tss) in
-  allocate (build_index (map (chain_of topo) cands)) num existing down o perms.
+  allocate (build_index (map (chain_of topo) cands)) num (map (chain_of topo) existing) existing down o perms.
 
 (* ---------- the property as a decidable predicate over a result (the relational spec) ---------- *)
 Definition dom (topo : list chain) (L : nat) (h : host) : dname := nth L (chain_of topo h) 0.
@@ -243,7 +256,8 @@ Definition check_wire (op : list Z) : option N :=
                           | Some (res, []) =>
                               let cfg := {| now := nw; start := st; grace := gr; unhealthy_thr := un; min_avail := zN mi |} in
                               let cands := candidates cfg (map fst hs) in
-                              Some (alloc_verdict (map snd hs) cands (map zN ex) (map zN dn) (Z.to_nat num)
+                              let nz := filter (fun a => negb (N.eqb a 0)) in
+                              Some (alloc_verdict (map snd hs) cands (nz (map zN ex)) (nz (map zN dn)) (Z.to_nat num)
                                                   (negb (Z.eqb missing 0))
                                                   (if Z.eqb some 0 then None else Some (map zN res)))
                           | _ => None
